@@ -231,3 +231,31 @@ func vh_C03_L6_stray_fragment_cannot_corrupt_complete_message() {
 	vassert(err == nil && n == nf && vBytesEq(buf[:n], held.bytes) && ppi == PayloadTypeWebRTCString, "the complete message is delivered exactly as it was received, whatever stray fragment followed it")
 	vcover("end")
 }
+
+// C03.L7: bounded work per packet. A FORWARD-TSN (or I-FORWARD-TSN) that jumps as far ahead as
+// serial arithmetic allows (2^31-1 TSNs), with a chunk held out of order below the new
+// point, is processed with work proportional to the tracking window, not to the distance
+// jumped: at most 200 000 interpreted instructions (clean tree: about 2 000).
+func vh_C03_L7_far_forward_tsn_is_bounded_work() {
+	il := vPick(2) == 1
+	a, _ := vNewAssocOpts(vAssocOpts{interleaving: il, fixedTSN: true})
+	a.useForwardTSN, a.useIForwardTSN = !il, il
+	cum := a.peerLastTSN()
+	if vPick(2) == 1 {
+		vassert(vDeliver(a, vDataChunk(a, cum+2, 4, true, 1)) == nil, "a chunk held out of order")
+	}
+	far := cum + (1 << 31) - 1
+	var c chunk
+	if il {
+		c = &chunkIForwardTSN{newCumulativeTSN: far}
+	} else {
+		c = &chunkForwardTSN{newCumulativeTSN: far}
+	}
+	vWorkBegin(200000, "a forward-TSN far ahead is processed in time bounded by the tracking window, not by the distance jumped")
+	err := vDeliver(a, c)
+	vWorkEnd()
+	vassert(err == nil, "forward-TSN is never fatal")
+	vassert(a.peerLastTSN() == far, "the cumulative point is the new value")
+	vassert(a.payloadQueue.size() == 0, "nothing below it stays tracked")
+	vcover("end")
+}
